@@ -31,6 +31,9 @@ type c12 struct {
 	h     *hist
 	gd    *c14
 	cases []c12Case
+	// gdev / gtg: a gNMI device on loopback and the production gNMI target connected to it (forms gnmi-*)
+	gdev *fixture.GNMIDevice
+	gtg  target.Target
 }
 
 func init() { core.Register(&c12{}) }
@@ -74,7 +77,7 @@ func (c *c12) build() {
 	sort.Strings(leaves)
 	for _, l := range leaves {
 		for _, v := range c12Values[l] {
-			for _, f := range []string{"typed", "string", "json", "json_ietf", "xml"} {
+			for _, f := range []string{"typed", "string", "json", "json_ietf", "xml", "gnmi-typed", "gnmi-string", "gnmi-json", "gnmi-json_ietf"} {
 				c.cases = append(c.cases, c12Case{l, v, f})
 			}
 		}
@@ -109,7 +112,145 @@ func (c *c12) Setup(w *core.Worker) error {
 	}
 	c.h = &hist{env: env, owners: []string{"oa"}}
 	c.gd = &c14{h: c.h}
+	if c.gdev, err = fixture.NewGNMIDevice(); err != nil {
+		return fmt.Errorf("gNMI device: %v", err)
+	}
+	sbi := &config.SBI{Type: "gnmi", Address: "127.0.0.1", Port: c.gdev.Port(), GnmiOptions: &config.SBIGnmiOptions{Encoding: "proto"}}
+	if c.gtg, err = target.New(context.Background(), "c12g", sbi, nil); err != nil {
+		return fmt.Errorf("gNMI target: %v", err)
+	}
 	return nil
+}
+
+// toGnmiTv is the value as a gNMI device carries it (written from the gNMI specification, not from the code under test).
+func toGnmiTv(tv *sdcpb.TypedValue) *gnmi.TypedValue {
+	switch v := tv.GetValue().(type) {
+	case *sdcpb.TypedValue_IntVal:
+		return &gnmi.TypedValue{Value: &gnmi.TypedValue_IntVal{IntVal: v.IntVal}}
+	case *sdcpb.TypedValue_UintVal:
+		return &gnmi.TypedValue{Value: &gnmi.TypedValue_UintVal{UintVal: v.UintVal}}
+	case *sdcpb.TypedValue_BoolVal:
+		return &gnmi.TypedValue{Value: &gnmi.TypedValue_BoolVal{BoolVal: v.BoolVal}}
+	case *sdcpb.TypedValue_DecimalVal:
+		return &gnmi.TypedValue{Value: &gnmi.TypedValue_DecimalVal{DecimalVal: &gnmi.Decimal64{Digits: v.DecimalVal.GetDigits(), Precision: v.DecimalVal.GetPrecision()}}}
+	case *sdcpb.TypedValue_StringVal:
+		return &gnmi.TypedValue{Value: &gnmi.TypedValue_StringVal{StringVal: v.StringVal}}
+	case *sdcpb.TypedValue_IdentityrefVal:
+		return &gnmi.TypedValue{Value: &gnmi.TypedValue_StringVal{StringVal: v.IdentityrefVal.GetValue()}}
+	case *sdcpb.TypedValue_BytesVal:
+		return &gnmi.TypedValue{Value: &gnmi.TypedValue_BytesVal{BytesVal: v.BytesVal}}
+	case *sdcpb.TypedValue_JsonVal:
+		return &gnmi.TypedValue{Value: &gnmi.TypedValue_JsonVal{JsonVal: v.JsonVal}}
+	case *sdcpb.TypedValue_JsonIetfVal:
+		return &gnmi.TypedValue{Value: &gnmi.TypedValue_JsonIetfVal{JsonIetfVal: v.JsonIetfVal}}
+	case *sdcpb.TypedValue_LeaflistVal:
+		arr := &gnmi.ScalarArray{}
+		for _, e := range v.LeaflistVal.GetElement() {
+			arr.Element = append(arr.Element, toGnmiTv(e))
+		}
+		return &gnmi.TypedValue{Value: &gnmi.TypedValue_LeaflistVal{LeaflistVal: arr}}
+	}
+	return nil
+}
+
+// gnmiCase: the value comes from the device over gNMI. The gNMI device on loopback reports it (as a typed scalar, as a
+// string, inside a JSON or JSON_IETF document); the production gNMI target fetches it with Get (gnmic client, gRPC,
+// utils.ToSchemaNotification), the notification goes through the datastore's sync loop into the running store. The
+// value the target hands on, the stored value and GetData must denote the datum the device reported.
+func (c *c12) gnmiCase(cs c12Case, t model.TypeDef, want, desc string, res *core.CaseResult) {
+	ctx := context.Background()
+	form := strings.TrimPrefix(cs.form, "gnmi-")
+	if t.Kind == "empty" && (form == "typed" || form == "string") {
+		// gNMI has no scalar for the YANG empty type: a device reports it inside a document
+		form = "json_ietf"
+	}
+	su := c.mkUpdate(cs.leaf, cs.val, form)
+	gv := toGnmiTv(su.GetValue())
+	if gv == nil {
+		res.Inconclusive("C12/generator", "%s: no gNMI representation for %T", desc, su.GetValue().GetValue())
+		return
+	}
+	n := &gnmi.Notification{Timestamp: 1, Update: []*gnmi.Update{{Path: fixture.ToGPath(model.FromPb(su.GetPath())), Val: gv}}}
+	if cs.leaf == "lr" {
+		n.Update = append(n.Update, &gnmi.Update{Path: fixture.ToGPath(model.Parse("/types/u16")), Val: &gnmi.TypedValue{Value: &gnmi.TypedValue_StringVal{StringVal: cs.val}}})
+	}
+	c.gdev.SetGetNotifs([]*gnmi.Notification{n})
+	var rsp *sdcpb.GetDataResponse
+	var err error
+	if apiCall(res, "gnmiTarget.Get", func() {
+		rsp, err = c.gtg.Get(ctx, &sdcpb.GetDataRequest{Name: "c12g", Path: []*sdcpb.Path{mustPb("/types")}, DataType: sdcpb.DataType_CONFIG, Encoding: sdcpb.Encoding_PROTO, Datastore: &sdcpb.DataStore{Type: sdcpb.Type_MAIN}})
+	}) {
+		return
+	}
+	what := fmt.Sprintf("%s: device reports %s", desc, strings.TrimSpace(fixture.DescribeSet(&gnmi.SetRequest{Update: n.Update})))
+	if err != nil {
+		res.Violate(fmt.Sprintf("C12/valid-value-refused/%s/%s", cs.leaf, cs.form), "%s: Get fails: %v", what, err)
+		return
+	}
+	res.Count("gnmi_get_replies", 1)
+	leafPath := model.Parse("/types/" + cs.leaf).String()
+	judge := func(where, lex string) {
+		res.Count("representations_compared", 1)
+		if t.Kind == "empty" && lex == "true" {
+			lex = "EMPTY"
+		}
+		got, err := c.canon(cs.leaf, lex)
+		if err != nil {
+			res.Violate(fmt.Sprintf("C12/%s-is-no-valid-%s", where, t.Kind), "%s: %s carries %q: %v", what, where, lex, err)
+			return
+		}
+		if got != want {
+			res.Violate(fmt.Sprintf("C12/%s-denotes-another-value/%s", where, cs.leaf), "%s: %s carries %q which denotes %s, reported %s", what, where, lex, got, want)
+		}
+	}
+	// the datastore's sync loop (one write worker: notifications are stored in order)
+	ds := c.h.env.NewDS(fixture.DSOpts{Sync: &config.Sync{Validate: false, Buffer: 16, WriteWorkers: 1}})
+	defer ds.Close()
+	sctx, cancel := context.WithCancel(ctx)
+	defer cancel()
+	go ds.Sync(sctx)
+	ch := ds.VerifSyncCh()
+	for _, sn := range rsp.GetNotification() {
+		ch <- &target.SyncUpdate{Update: sn}
+	}
+	ch <- &target.SyncUpdate{Update: &sdcpb.Notification{Update: []*sdcpb.Update{{Path: mustPb("/verif-barrier"), Value: kindTv("uint", "1")}}}}
+	var cfg map[string]string
+	if !waitFor(20*time.Second, func() bool {
+		cfg, _ = fixture.DumpStore(ctx, c.h.env.Cache, ds.Name, cachepb.Store_CONFIG)
+		_, ok := cfg["verif-barrier"]
+		return ok
+	}) {
+		res.Inconclusive("C12/gnmi/barrier", "%s: the barrier notification was not stored within 20 s", what)
+		return
+	}
+	found := false
+	for k, v := range cfg {
+		if cacheToCanon(k) == leafPath {
+			found = true
+			judge("running-store-after-gnmi-sync", v)
+		}
+	}
+	if !found {
+		res.Violate(fmt.Sprintf("C12/gnmi-input-lost/%s/%s", cs.leaf, form), "%s: the running store has no entry for the leaf after the sync: %v", what, cfg)
+		return
+	}
+	srv := server.NewVerif(ctx, &config.Config{}, c.h.env.Schema, c.h.env.Cache, map[string]*datastore.Datastore{ds.Name: ds.Datastore})
+	for _, enc := range []sdcpb.Encoding{sdcpb.Encoding_STRING, sdcpb.Encoding_JSON_IETF} {
+		got := c.gd.get(srv, &sdcpb.GetDataRequest{Name: ds.Name, Path: []*sdcpb.Path{mustPb("/types/" + cs.leaf)}, DataType: sdcpb.DataType_CONFIG, Encoding: enc, Datastore: &sdcpb.DataStore{Type: sdcpb.Type_MAIN}})
+		if got.err != nil {
+			if strings.HasPrefix(got.err.Error(), "PANIC") {
+				res.Inconclusive("api-panic", "%s: GetData %s: %v", what, enc, got.err)
+			} else {
+				res.Violate(fmt.Sprintf("C12/getdata-%s-fails/%s", enc, cs.leaf), "%s: %v", what, got.err)
+			}
+			continue
+		}
+		if v, ok := got.leaves[leafPath]; ok {
+			judge("getdata-"+enc.String()+"-after-gnmi-sync", v)
+		} else {
+			res.Violate(fmt.Sprintf("C12/getdata-%s-lacks-the-leaf/%s", enc, cs.leaf), "%s: returned %v", what, got.leaves)
+		}
+	}
 }
 
 func isLL(leaf string) bool { return strings.HasPrefix(leaf, "ll-") }
@@ -295,7 +436,7 @@ func (c *c12) interior(rng *core.Rng) c12Case {
 	leaves := []string{"i8", "i16", "i32", "i64", "u8", "u16", "u32", "u64", "d1", "d2", "d18", "un1", "un2", "pct", "str"}
 	l := leaves[rng.Intn(len(leaves))]
 	t := model.LeafTypes[l]
-	forms := []string{"typed", "string", "json", "json_ietf", "xml"}
+	forms := []string{"typed", "string", "json", "json_ietf", "xml", "gnmi-typed", "gnmi-string", "gnmi-json", "gnmi-json_ietf"}
 	rnd := func(lo, hi string) string {
 		a, _ := new(big.Int).SetString(lo, 10)
 		b, _ := new(big.Int).SetString(hi, 10)
@@ -328,7 +469,7 @@ func (c *c12) interior(rng *core.Rng) c12Case {
 			v = rnd(r[0], r[1])
 		}
 	}
-	return c12Case{l, v, forms[rng.Intn(5)]}
+	return c12Case{l, v, forms[rng.Intn(len(forms))]}
 }
 
 func (c *c12) RunCase(w *core.Worker, idx int, seed uint64, res *core.CaseResult) {
@@ -355,6 +496,10 @@ func (c *c12) RunCase(w *core.Worker, idx int, seed uint64, res *core.CaseResult
 	tkey := cs.leaf
 	if cs.form == "xml" {
 		c.xmlCase(idx, cs, t, want, desc, res)
+		return
+	}
+	if strings.HasPrefix(cs.form, "gnmi-") {
+		c.gnmiCase(cs, t, want, desc, res)
 		return
 	}
 	c.h.pool = nil
